@@ -216,15 +216,30 @@ loop:
 			spec.Q = 1.0
 			s = skipSpace(s)
 			if strings.HasPrefix(s, ";") {
-				s = skipSpace(s[1:])
-				for !strings.HasPrefix(s, "q=") && s != "" && !strings.HasPrefix(s, ",") {
-					s = skipSpace(s[1:])
-				}
-				if strings.HasPrefix(s, "q=") {
-					spec.Q, s = expectQuality(s[2:])
-					if spec.Q < 0.0 {
-						continue loop
+				// parameters: the first one named q is the quality, the others (media type
+				// parameters before it, extensions after it) do not take part in the negotiation
+				for qSeen := false; strings.HasPrefix(s, ";"); s = skipSpace(s) {
+					var name string
+					name, s = expectToken(skipSpace(s[1:]))
+					if !strings.HasPrefix(s, "=") {
+						if name == "" {
+							break // not a parameter
+						}
+						continue // parameter without value
 					}
+					if name == "q" && !qSeen {
+						qSeen = true
+						spec.Q, s = expectQuality(s[1:])
+						if spec.Q < 0.0 {
+							continue loop
+						}
+						continue
+					}
+					_, s = expectTokenOrQuoted(s[1:])
+				}
+				// skip what is not a parameter up to the next element
+				for s != "" && !strings.HasPrefix(s, ",") {
+					s = s[1:]
 				}
 			}
 
